@@ -213,6 +213,7 @@ func compactStack(s string) string {
 // Soundness relies on the scenario using no timers: a quiescent
 // system without timers cannot move without a new stimulus.
 func Quiesce(watchdog time.Duration) (Census, bool) {
+	defer Progress.Add(1)
 	deadline := time.Now().Add(watchdog)
 	var prevSig string
 	var prevClock int64 = -1
@@ -247,6 +248,7 @@ func Quiesce(watchdog time.Duration) (Census, bool) {
 // expires. Used only for positive expectations: a met expectation is
 // decided at once, an unmet one is handed to Quiesce for a verdict.
 func WaitUntil(watchdog time.Duration, cond func() bool) bool {
+	defer Progress.Add(1)
 	deadline := time.Now().Add(watchdog)
 	for i := 0; ; i++ {
 		if cond() {
